@@ -156,7 +156,9 @@ def check_dotdot(ctx, prog):
 def check_splitidx(ctx, prog):
     n = 0
     for f in prog.functions:
-        if not f.get('body') or not f['file'].startswith(ir.REPO + '/src/'):
+        # peer-controlled strings only: the HTTP / WebSocket / socket sources (other split() users parse trusted column specs
+        # whose validity depends on value correlations this rule does not model)
+        if not f.get('body') or os.path.basename(f['file']) not in ('Http.cpp', 'HttpServer.cpp', 'WebSocket.cpp', 'Socket.cpp', 'SocketServer.cpp'):
             continue
         # Array<String> locals fed by split
         arrs = {}
@@ -169,19 +171,30 @@ def check_splitidx(ctx, prog):
         if not arrs:
             continue
         fed = set()
+        minlen = {}      # split with a separator always yields at least one part; whitespace split() may yield none
+
+        def note(vid, call):
+            fed.add(vid)
+            has_sep = any(T(f, strip_lv(a).get('t')).get('rec') == 'asl::String' or T(f, T(f, strip_lv(a).get('t')).get('to')).get('rec') == 'asl::String' or T(f, strip_lv(a).get('t')).get('bits') == 8
+                          for a in call.get('a', []))
+            minlen[vid] = min(minlen.get(vid, 1), 1 if has_sep else 0)
         for e in fn_exprs(f):
             if e.get('k') == 'call' and (e.get('pq') or '') == 'asl::String::split':
                 for w in walk_expr(e):
                     if w.get('k') == 'var' and w.get('id') in arrs:
-                        fed.add(w['id'])
+                        note(w['id'], e)
         for s_ in ir.walk_stmts(f['body']):
             if s_.get('k') == 'decl':
                 for v in s_['vars']:
-                    if v['id'] in arrs and v.get('init') is not None and any(w.get('k') == 'call' and w.get('pq') == 'asl::String::split' for w in walk_expr(v['init'])):
-                        fed.add(v['id'])
+                    if v['id'] in arrs and v.get('init') is not None:
+                        for w in walk_expr(v['init']):
+                            if w.get('k') == 'call' and w.get('pq') == 'asl::String::split':
+                                note(v['id'], w)
         for e in fn_exprs(f):
-            if e.get('k') == 'call' and e.get('pq') == 'asl::Array::operator=' and e.get('obj') is not None and strip(e['obj']).get('id') in arrs and any(w.get('k') == 'call' and w.get('pq') == 'asl::String::split' for w in walk_expr(e)):
-                fed.add(strip(e['obj'])['id'])
+            if e.get('k') == 'call' and e.get('pq') == 'asl::Array::operator=' and e.get('obj') is not None and strip(e['obj']).get('id') in arrs:
+                for w in walk_expr(e):
+                    if w.get('k') == 'call' and w.get('pq') == 'asl::String::split':
+                        note(strip(e['obj'])['id'], w)
         if not fed:
             continue
         g = q.Guarded(f)
@@ -194,13 +207,13 @@ def check_splitidx(ctx, prog):
 
                 def is_len(x):
                     return x.get('k') == 'call' and x.get('pq') == 'asl::Array::length' and x.get('obj') is not None and strip(x['obj']).get('id') == vid
-                implied = False
+                implied = k < minlen.get(vid, 0)
                 for c, pol, kind in g.of(e):
                     if kind not in ('if', 'after', 'and', 'cond', 'loop') or not any(is_len(w) for w in walk_expr(c)):
                         continue
                     try:
                         ok_all = True
-                        for L in range(0, k + 1):
+                        for L in range(minlen.get(vid, 0), k + 1):
                             v = bool(bytesets._Bound(prog, f, is_len, L).ev(c))
                             if v == bool(pol):
                                 ok_all = False
